@@ -14,7 +14,13 @@ META = {
             "every edge + pixel centres + the +-0.01/0.03 px bands around the outer edges, mapped to lon/lat by "
             "the inverse projection; for geographic (longlat) areas lon/lat are nudged by ulps so that the "
             "module's own forward projection lands exactly on the lattice (exact borders). Non-trivial: the "
-            "point lies within 1 px of a cell border or outside the area. Distinct = distinct (area, x', y', module).",
+            "point lies within 1 px of a cell border or outside the area. Distinct = distinct (area, x', y', module). "
+            "ewa_sliced: one case = (parent area, target = parent / slice / slice of a slice / slice along one axis, 1 or several output chunks): "
+            "DaskEWAResampler's kept mapping = ewa.ll2cr = the target's array coordinates = first principles, and a dense swath carrying its own "
+            "fractional column / row arrives within 0.5 cell of c / r in cell (r, c), equal to the result for the same grid built from scratch. "
+            "geographic: lon/lat areas (global, at the antimeridian, sphere, other prime meridian; two projected controls) x points inside and "
+            "within 1 px of the edges, longitudes as is / +360 / -360 / 0..360, clear of cell borders by 0.1 px: index lookup (array, scalar, "
+            "fractional), get_linesample, GridFilter, bucket indices against pyproj.Proj(area.crs) + arithmetic on the extent.",
     "assumptions": ["float evaluation of (x-x0)/dx equals the exact quotient whenever the exact fractional index is "
                     "more than 1e-9 px away from an integer; inside that band either adjacent cell is accepted "
                     "unless the position is exactly on the border of an exact-class (dyadic) area"],
@@ -473,8 +479,320 @@ def run_quick_linesample(ctx):
         ctx.count(f"quick_linesample.axis_{'le' if max(W, H) <= 65535 else 'gt'}_uint16")
 
 
+# ---------------------------------------------------------------------------------------------
+# EWA through the dask resampler onto areas that are slices of other areas
+# ---------------------------------------------------------------------------------------------
+
+def _ewa_parent(rng, k):
+    """a parent area (some tens of cells each way) and a dense swath (tilted, jittered lattice, about 0.6 px spacing) covering it"""
+    import pyproj
+    from pyresample.geometry import AreaDefinition
+    kinds = [("laea", lambda: {"proj": "laea", "lat_0": rng.uniform(-60, 70), "lon_0": rng.uniform(-170, 170), "ellps": "WGS84"}, (1000.0, 4000.0)),
+             ("stere_n", lambda: {"proj": "stere", "lat_0": 90, "lat_ts": 60, "lon_0": rng.uniform(-90, 90), "ellps": "WGS84"}, (1000.0, 5000.0)),
+             ("merc", lambda: {"proj": "merc", "lon_0": rng.uniform(-150, 150), "ellps": "WGS84"}, (1000.0, 4000.0)),
+             ("eqc", lambda: {"proj": "eqc", "lon_0": 0, "ellps": "WGS84"}, (1000.0, 4000.0)),
+             ("longlat", lambda: {"proj": "longlat", "datum": "WGS84"}, (0.01, 0.05))]
+    kind, mk, (lo, hi) = kinds[k % len(kinds)]
+    proj = mk()
+    W, H = rng.randrange(40, 64), rng.randrange(36, 56)
+    dx, dy = rng.uniform(lo, hi), rng.uniform(lo, hi)
+    if kind == "longlat":
+        cx, cy = rng.uniform(-150, 150), rng.uniform(-60, 60)
+    elif kind == "stere_n":
+        cx, cy = rng.uniform(-1.5e6, 1.5e6), rng.uniform(-2.5e6, -0.8e6)
+    elif kind == "merc":
+        cx, cy = rng.uniform(-2e6, 2e6), rng.uniform(-5e6, 6e6)
+    else:
+        cx, cy = rng.uniform(-3e5, 3e5), rng.uniform(-3e5, 3e5)
+    ext = (cx - W * dx / 2, cy - H * dy / 2, cx + W * dx / 2, cy + H * dy / 2)
+    with warnings.catch_warnings():
+        warnings.simplefilter("ignore")
+        parent = AreaDefinition("parent", "parent", "parent", proj, W, H, ext)
+    rows_per_scan = rng.choice([5, 10])
+    n_j = int(W / 0.6) + 12
+    n_i = (int(H / 0.6) + 12 + rows_per_scan - 1) // rows_per_scan * rows_per_scan
+    ii, jj = np.meshgrid(np.arange(n_i) - n_i / 2.0, np.arange(n_j) - n_j / 2.0, indexing="ij")
+    th = rng.uniform(-0.15, 0.15)
+    jit = np.random.default_rng(rng.randrange(2 ** 31))
+    u = (jj + jit.uniform(-0.1, 0.1, jj.shape)) * 0.6
+    v = (ii + jit.uniform(-0.1, 0.1, ii.shape)) * 0.6
+    xs = cx + (u * np.cos(th) - v * np.sin(th)) * dx
+    ys = cy - (u * np.sin(th) + v * np.cos(th)) * dy
+    t = pyproj.Transformer.from_crs(parent.crs.geodetic_crs, parent.crs, always_xy=True)
+    lons, lats = t.transform(xs, ys, direction="INVERSE")
+    return kind, proj, parent, np.ascontiguousarray(lons, dtype=np.float64), np.ascontiguousarray(lats, dtype=np.float64), rows_per_scan
+
+
+def _frac_cell(area, lons, lats):
+    """fractional (column, row) of each point on the area's grid from first principles: pyproj + arithmetic on the extent; integer = cell centre"""
+    import pyproj
+    t = pyproj.Transformer.from_crs(area.crs.geodetic_crs, area.crs, always_xy=True)
+    x, y = t.transform(lons, lats)
+    x0, y0, x1, y1 = area.area_extent
+    return (np.asarray(x) - x0) / ((x1 - x0) / area.width) - 0.5, (y1 - np.asarray(y)) / ((y1 - y0) / area.height) - 0.5
+
+
+def run_ewa_sliced(ctx):
+    """DaskEWAResampler (precompute: swath point -> fractional column/row; resample: where the points' values arrive) onto target areas
+    that are never-sliced areas, slices of a parent area (non-zero start in both / one dimension) and slices of slices, with one and
+    several output chunks.  The grid of a target is given by its extent and shape, not by how it was obtained."""
+    import dask
+    import dask.array as da
+    from pyresample.ewa import DaskEWAResampler, ll2cr
+    from pyresample.geometry import AreaDefinition, SwathDefinition
+    rng = ctx.rng
+    n_parents = 2 if ctx.quick else 10
+    k0 = rng.randrange(5)
+    for k in range(n_parents):
+        kind, proj, parent, lons, lats, rps = _ewa_parent(rng, k0 + k)
+        H, W = parent.shape
+        r0, c0 = rng.randrange(1, H // 3), rng.randrange(1, W // 3)
+        r1, c1 = rng.randrange(r0 + 20, H + 1), rng.randrange(c0 + 20, W + 1)
+        a0, b0 = rng.randrange(1, 6), rng.randrange(1, 6)
+        a1, b1 = rng.randrange(a0 + 12, r1 - r0 + 1), rng.randrange(b0 + 12, c1 - c0 + 1)
+        rr0 = rng.randrange(2, H // 2)
+        cc0 = rng.randrange(2, W // 2)
+        with warnings.catch_warnings():
+            warnings.simplefilter("ignore")
+            sl = parent[r0:r1, c0:c1]
+            targets = [("never_sliced", parent, (0, 0), None),
+                       ("slice", sl, (r0, c0), f"parent[{r0}:{r1}, {c0}:{c1}]"),
+                       ("slice_of_slice", sl[a0:a1, b0:b1], (r0 + a0, c0 + b0), f"parent[{r0}:{r1}, {c0}:{c1}][{a0}:{a1}, {b0}:{b1}]"),
+                       ("slice_rows_only", parent[rr0:H, 0:W], (rr0, 0), f"parent[{rr0}:{H}, 0:{W}]"),
+                       ("slice_cols_only", parent[0:H, cc0:W], (0, cc0), f"parent[0:{H}, {cc0}:{W}]")]
+        if ctx.quick:
+            targets = targets[:3] + [targets[3 + k % 2]]
+        chunk_rows = rps * rng.choice([2, 4])
+        sw_np = SwathDefinition(lons, lats)
+        pc, pr = _frac_cell(parent, lons, lats)
+        for tname, target, (off_r, off_c), how in targets:
+            th, tw = target.shape
+            with warnings.catch_warnings():
+                warnings.simplefilter("ignore")
+                rebuilt = AreaDefinition("rebuilt", "rebuilt", "rebuilt", proj, tw, th, tuple(target.area_extent))
+            fc, fr = _frac_cell(target, lons, lats)
+            base = {"parent": kind, "parent_proj": proj, "parent_shape": [H, W], "parent_extent": [float(v) for v in parent.area_extent], "target": tname,
+                    "target_is": how or "the parent itself", "target_shape": [th, tw], "target_extent": [float(v) for v in target.area_extent],
+                    "crop_offset": list(getattr(target, "crop_offset", (0, 0))), "swath_shape": list(lons.shape), "rows_per_scan": rps}
+            # the slice's own grid: cell (r, c) of the slice is cell (r + r0, c + c0) of the parent
+            if not (np.allclose(fc, pc - off_c, atol=1e-6, rtol=0) and np.allclose(fr, pr - off_r, atol=1e-6, rtol=0)):
+                ctx.fail("AreaDefinition.__getitem__", "the extent of the sliced area does not put its cell (r, c) on the parent's cell (r + r0, c + c0)", base,
+                         {"max_col_diff": float(np.nanmax(np.abs(fc - (pc - off_c)))), "max_row_diff": float(np.nanmax(np.abs(fr - (pr - off_r))))}, size=10)
+                continue
+            chunkings = [None, (max(4, th // rng.choice([2, 3]) + 1), max(4, tw // rng.choice([2, 3]) + 1))]
+            for chunks in chunkings:
+                inp = {**base, "output_chunks": list(chunks) if chunks else None}
+                tags = {"cause": "ewa-sliced-target", "target": tname, "chunks": "several" if chunks else "one"}
+                key = (kind, tuple(target.area_extent), th, tw, tname, chunks)
+                outs = {}
+                try:
+                    with warnings.catch_warnings():
+                        warnings.simplefilter("ignore")
+                        for which, tgt in (("target", target), ("rebuilt", rebuilt)):
+                            sw = SwathDefinition(da.from_array(lons, chunks=(chunk_rows, lons.shape[1])), da.from_array(lats, chunks=(chunk_rows, lons.shape[1])))
+                            rs = DaskEWAResampler(sw, tgt)
+                            rs.precompute(rows_per_scan=rps)
+                            cr = np.asarray(rs.cache["ll2cr_result"].compute())
+                            res = []
+                            for field in (fc, fr):
+                                kw = {"rows_per_scan": rps, "weight_delta_max": 10.0}
+                                if chunks:
+                                    kw["chunks"] = chunks
+                                o = rs.resample(da.from_array(field.astype(np.float64), chunks=(chunk_rows, lons.shape[1])), **kw)
+                                res.append(np.asarray(dask.compute(o)[0], dtype=np.float64))
+                            outs[which] = (cr, res)
+                        _, lc, lr = ll2cr(sw_np, target)
+                        ac, ar = target.get_array_coordinates_from_lonlat(lons, lats)
+                except Exception as e:  # noqa
+                    ctx.fail("ewa.DaskEWAResampler.resample", f"raised {type(e).__name__}: {str(e)[:160]}", inp, tags=tags, size=10)
+                    ctx.case("ewa_sliced", key, nontrivial=tname != "never_sliced")
+                    continue
+                cr, (ocol, orow) = outs["target"]
+                # (1) the mapping kept by precompute = ewa.ll2cr on the target = the target's own array coordinates = first principles
+                probs = []
+                if cr.shape != (2,) + lons.shape:
+                    probs.append(f"mapping has shape {cr.shape}")
+                else:
+                    if not (np.array_equal(cr[0], lc, equal_nan=True) and np.array_equal(cr[1], lr, equal_nan=True)):
+                        probs.append("columns/rows differ from ewa.ll2cr(swath, target)")
+                    if not (np.allclose(cr[0], ac, atol=1e-6, rtol=1e-9) and np.allclose(cr[1], ar, atol=1e-6, rtol=1e-9)):
+                        probs.append("columns/rows differ from the target's own get_array_coordinates_from_lonlat")
+                    if not (np.allclose(cr[0], fc, atol=1e-6, rtol=1e-9) and np.allclose(cr[1], fr, atol=1e-6, rtol=1e-9)):
+                        probs.append(f"columns/rows differ from the cell computed from the target's extent (by up to {float(np.nanmax(np.abs(cr[0] - fc))):.3f} columns, "
+                                     f"{float(np.nanmax(np.abs(cr[1] - fr))):.3f} rows)")
+                if probs:
+                    ctx.fail("ewa.DaskEWAResampler.precompute", "swath-to-grid mapping of the dask resampler: " + "; ".join(probs), inp, tags=tags, size=10)
+                # (2) the values of the points arrive in the cells that contain the points: a swath carrying each point's fractional column (row)
+                #     on the target grid must give ~c (~r) in cell (r, c); EWA averages the points around the cell
+                probs = []
+                obs = {}
+                for what, out, axis in (("column", ocol, 1), ("row", orow, 0)):
+                    if out.shape != (th, tw):
+                        probs.append(f"{what} field: result has shape {out.shape}, the target {(th, tw)}")
+                        continue
+                    inner = (slice(2, th - 2), slice(2, tw - 2))
+                    exp = np.indices((th, tw))[axis].astype(np.float64)[inner]
+                    got = out[inner]
+                    fin = np.isfinite(got)
+                    obs[f"{what}_cells_filled"] = float(fin.mean())
+                    if fin.mean() < 0.99:
+                        probs.append(f"only {100 * fin.mean():.1f}% of the interior cells received data although the swath covers the whole area ({what} field)")
+                    if not fin.any():
+                        continue
+                    err = float(np.abs(got[fin] - exp[fin]).max())
+                    obs[f"{what}_max_error_cells"] = err
+                    if err > 0.5:
+                        j = int(np.argmax(np.abs(np.where(fin, got - exp, 0.0))))
+                        rr_, cc_ = np.unravel_index(j, got.shape)
+                        probs.insert(0, f"cell ({rr_ + 2}, {cc_ + 2}) received points whose {what} on the target grid is {got[rr_, cc_]:.2f} (off by up to {err:.2f} cells)")
+                # (3) same cells, same result as for an area with this extent and shape that was never sliced
+                rcr, (rcol, rrow) = outs["rebuilt"]
+                if not probs and not (rcol.shape == ocol.shape and np.allclose(ocol, rcol, atol=1e-3, rtol=0, equal_nan=True) and np.allclose(orow, rrow, atol=1e-3, rtol=0, equal_nan=True)):
+                    probs.append("the result differs from the result for an area with the same extent and shape built from scratch")
+                if probs:
+                    ctx.fail("ewa.DaskEWAResampler.resample", f"target {how or 'never sliced'} ({'several output chunks' if chunks else 'one output chunk'}): " + "; ".join(probs[:3]),
+                             inp, obs, tags=tags, size=10)
+                ctx.case("ewa_sliced", key, nontrivial=tname != "never_sliced", sample={"input": {k_: v for k_, v in inp.items() if k_ != "parent_proj"}, **obs} if chunks else None)
+                ctx.count(f"ewa_sliced.{tname}.{'several_chunks' if chunks else 'one_chunk'}")
+
+
+# ---------------------------------------------------------------------------------------------
+# geographic (lon/lat) areas and longitudes written outside [-180, 180)
+# ---------------------------------------------------------------------------------------------
+
+def _geographic_areas(ctx):
+    from pyresample.geometry import AreaDefinition
+    r = ctx.rng
+    out = []
+    with warnings.catch_warnings():
+        warnings.simplefilter("ignore")
+        d = r.choice([2.5, 5.0, 10.0])
+        out.append(("global_epsg4326", AreaDefinition("g", "g", "g", "EPSG:4326", int(360 / d), int(180 / d), (-180.0, -90.0, 180.0, 90.0)), True))
+        w, h = r.randrange(8, 40), r.randrange(6, 30)
+        res = r.choice([0.25, 0.5, 1.0])
+        lat0 = r.uniform(-60, 40)
+        out.append(("ends_at_antimeridian", AreaDefinition("e", "e", "e", "EPSG:4326", w, h, (180.0 - w * res, lat0, 180.0, lat0 + h * res)), False))
+        out.append(("starts_at_antimeridian", AreaDefinition("s", "s", "s", {"proj": "longlat", "datum": "WGS84"}, w, h, (-180.0, lat0, -180.0 + w * res, lat0 + h * res)), False))
+        lon0 = r.uniform(-170, 120)
+        out.append(("regional_sphere", AreaDefinition("r", "r", "r", "+proj=longlat +R=6371229", w, h, (lon0, lat0, lon0 + w * res, lat0 + h * res)), False))
+        pm = r.choice([180.0, 90.0, -75.0, 20.0])
+        out.append((f"global_pm_{pm:g}", AreaDefinition("p", "p", "p", f"+proj=longlat +ellps=WGS84 +pm={pm:g}", 36, 18, (-180.0, -90.0, 180.0, 90.0)), True))
+        out.append((f"regional_pm_{pm:g}", AreaDefinition("q", "q", "q", f"+proj=longlat +ellps=WGS84 +pm={pm:g}", w, h,
+                                                            (-20.0, lat0, -20.0 + w * res, lat0 + h * res)), False))
+        # projected controls: longitudes are periodic for them too
+        out.append(("control_eqc", AreaDefinition("c", "c", "c", "+proj=eqc +lon_0=0 +ellps=WGS84", 72, 36, (-20037508.34, -10018754.17, 20037508.34, 10018754.17)), True))
+        out.append(("control_laea", AreaDefinition("l", "l", "l", {"proj": "laea", "lat_0": r.uniform(-50, 60), "lon_0": r.choice([175.0, -178.0, 10.0]), "ellps": "WGS84"},
+                                                   w, h, (-w * 40000.0, -h * 40000.0, w * 40000.0, h * 40000.0)), False))
+    return out
+
+
+def run_geographic_wrapped(ctx):
+    """Longitudes are periodic: a point written as lon, lon + 360, lon - 360 or in the 0..360 convention is the same point.  On lon/lat
+    grids (global, regional next to the antimeridian, on a sphere, with another prime meridian) the area's own index lookup (array and
+    scalar form, integer and fractional), get_linesample, GridFilter and the bucket indices all put it in the cell that contains its
+    projected position, computed here from first principles (pyproj.Proj(area.crs) + arithmetic on the extent), or in none."""
+    import dask.array as da
+    from pyproj import Proj
+    from pyresample import geo_filter, geometry, grid
+    from pyresample.bucket import BucketResampler
+    rs = np.random.default_rng(ctx.rng.randrange(2 ** 31))
+    for name, area, is_global in _geographic_areas(ctx):
+        W, H = area.width, area.height
+        x0, y0, x1, y1 = area.area_extent
+        px, py = (x1 - x0) / W, (y1 - y0) / H
+        with warnings.catch_warnings():
+            warnings.simplefilter("ignore")
+            p = Proj(area.crs)
+        n = 30 if ctx.quick else 120
+        xs = np.concatenate([rs.uniform(x0 - px, x0 + px, n), rs.uniform(x1 - px, x1 + px, n), rs.uniform(x0, x1, 2 * n), rs.uniform(x0, x1, 2 * n)])
+        ys = np.concatenate([rs.uniform(y0, y1, 2 * n), rs.uniform(y0 - py, y0 + py, n), rs.uniform(y1 - py, y1 + py, n), rs.uniform(y0, y1, 2 * n)])
+        elon, elat = p(xs, ys, inverse=True)
+        ok = np.isfinite(elon) & np.isfinite(elat) & (np.abs(elat) < 89.9)
+        elon, elat = np.asarray(elon)[ok], np.asarray(elat)[ok]
+        glon, glat = rs.uniform(-180, 180, 2 * n), rs.uniform(-89, 89, 2 * n)
+        lons = np.concatenate([elon, elon + 360.0, elon - 360.0, elon % 360.0, glon, glon % 360.0, glon + 360.0, glon - 360.0 * rs.integers(1, 3, glon.size)])
+        lats = np.concatenate([elat, elat, elat, elat, glat, glat, glat, glat])
+        conv = np.concatenate([np.full(elon.size, "as_is"), np.full(elon.size, "plus_360"), np.full(elon.size, "minus_360"), np.full(elon.size, "0_to_360"),
+                               np.full(glon.size, "as_is"), np.full(glon.size, "0_to_360"), np.full(glon.size, "plus_360"), np.full(glon.size, "minus_turns")])
+        # ground truth; keep the points that are clear of every cell border (0.1 px): border conventions and the lookup's 0.02 px tolerance do not matter
+        with warnings.catch_warnings():
+            warnings.simplefilter("ignore")
+            tx, ty = p(lons, lats)
+        fc = (np.asarray(tx) - x0) / px
+        fr = (y1 - np.asarray(ty)) / py
+        with np.errstate(invalid="ignore"):
+            clear = np.isfinite(fc) & np.isfinite(fr) & (np.abs(fc - np.round(fc)) > 0.1) & (np.abs(fr - np.round(fr)) > 0.1)
+        lons, lats, conv, fc, fr = lons[clear], lats[clear], conv[clear], fc[clear], fr[clear]
+        col, row = np.floor(fc).astype(int), np.floor(fr).astype(int)
+        inside = (col >= 0) & (col < W) & (row >= 0) & (row < H)
+        t_row, t_col = np.where(inside, row, -1), np.where(inside, col, -1)
+        npts = lons.size
+        got = {}
+        with warnings.catch_warnings():
+            warnings.simplefilter("ignore")
+            try:
+                cx, cy = area.get_array_indices_from_lonlat(lons, lats)
+                m = np.ma.getmaskarray(cx) | np.ma.getmaskarray(cy)
+                got["AreaDefinition.get_array_indices_from_lonlat"] = (np.where(m, -1, np.ma.getdata(cy)), np.where(m, -1, np.ma.getdata(cx)))
+                ax, ay = area.get_array_coordinates_from_lonlat(lons, lats)
+                ac, ar = np.floor(np.asarray(ax, float) + 0.5).astype(int), np.floor(np.asarray(ay, float) + 0.5).astype(int)
+                ins = (ac >= 0) & (ac < W) & (ar >= 0) & (ar < H)
+                got["AreaDefinition.get_array_coordinates_from_lonlat"] = (np.where(ins, ar, -1), np.where(ins, ac, -1))
+                sub = np.arange(0, npts, max(1, npts // (60 if ctx.quick else 300)))
+                srow, scol = t_row.copy(), t_col.copy()
+                for i in sub:
+                    try:
+                        c_, r_ = area.get_array_indices_from_lonlat(float(lons[i]), float(lats[i]))
+                        srow[i], scol[i] = int(r_), int(c_)
+                    except ValueError:
+                        srow[i], scol[i] = -1, -1
+                got["AreaDefinition.get_array_indices_from_lonlat (scalar)"] = (srow, scol)
+                rows_, cols_ = grid.get_linesample(lons.reshape(1, -1), lats.reshape(1, -1), area)
+                rows_, cols_ = np.asarray(rows_).ravel().astype(int), np.asarray(cols_).ravel().astype(int)
+                ins = (cols_ >= 0) & (cols_ < W) & (rows_ >= 0) & (rows_ < H)
+                got["grid.get_linesample"] = (np.where(ins, rows_, -1), np.where(ins, cols_, -1))
+                cellid = (np.arange(H * W).reshape(H, W) + 1).astype(np.int64)
+                swath = geometry.SwathDefinition(lons.reshape(1, -1), lats.reshape(1, -1))
+                allv = geo_filter.GridFilter(area, np.ones((H, W), bool)).get_valid_index(swath).ravel()
+                ids = np.zeros(npts, dtype=np.int64)
+                for b in range(max(1, int(H * W).bit_length())):
+                    ids |= geo_filter.GridFilter(area, ((cellid >> b) & 1).astype(bool)).get_valid_index(swath).ravel().astype(np.int64) << b
+                gr, gc = np.divmod(np.maximum(ids - 1, 0), W)
+                got["geo_filter.GridFilter.get_valid_index"] = (np.where(allv & (ids > 0), gr, -1), np.where(allv & (ids > 0), gc, -1))
+                br = BucketResampler(area, da.from_array(lons, chunks=max(1, npts // 3)), da.from_array(lats, chunks=max(1, npts // 3)))
+                bx, by = np.asarray(br.x_idxs).astype(int), np.asarray(br.y_idxs).astype(int)
+                ins = (bx >= 0) & (by >= 0)
+                got["BucketResampler._get_indices"] = (np.where(ins, by, -1), np.where(ins, bx, -1))
+            except Exception as e:  # noqa
+                ctx.fail("AreaDefinition.get_array_indices_from_lonlat" if not got else "grid.get_linesample",
+                         f"placing points on the lon/lat area {name} raised {type(e).__name__}: {str(e)[:160]}",
+                         {"area": name, "proj": area.proj_dict, "shape": [H, W], "extent": [float(v) for v in area.area_extent]}, tags={"cause": "geographic-wrapped"}, size=5)
+        for site, (rws, cls) in got.items():
+            bad = np.flatnonzero((np.asarray(rws) != t_row) | (np.asarray(cls) != t_col))
+            if bad.size:
+                i = int(bad[0])
+                by_conv = {cv: int((conv[bad] == cv).sum()) for cv in sorted(set(conv[bad].tolist()))}
+                ctx.fail(site.replace(" (scalar)", ""), f"lon/lat area {name}{' (scalar call)' if 'scalar' in site else ''}: {bad.size} of {npts} points in the wrong cell, e.g. lon={lons[i]:.4f} "
+                         f"lat={lats[i]:.4f} ({conv[i]}) -> (row, col) = ({int(rws[i])}, {int(cls[i])}) but its projected position (x={float(fc[i] * px + x0):.4f}, "
+                         f"y={float(y1 - fr[i] * py):.4f}) lies in ({int(t_row[i])}, {int(t_col[i])})   [-1 = no cell]",
+                         {"area": name, "proj": area.proj_dict, "shape": [H, W], "extent": [float(v) for v in area.area_extent], "lon": float(lons[i]), "lat": float(lats[i]),
+                          "longitude_convention": str(conv[i])},
+                         {"returned": [int(rws[i]), int(cls[i])], "expected": [int(t_row[i]), int(t_col[i])], "wrong_by_convention": by_conv},
+                         tags={"cause": "geographic-wrapped", "module": site, "area": name.split("_pm_")[0]}, size=5)
+            for i in (sub if "scalar" in site else range(npts)):
+                ctx.case("geographic." + site.split(".")[-1].replace(" (scalar)", "_scalar"), (name, float(lons[i]), float(lats[i])),
+                         nontrivial=conv[i] != "as_is" or not inside[i])
+        ctx.count("geographic.areas")
+        for cv in sorted(set(conv.tolist())):
+            ctx.count(f"geographic.longitudes.{cv}", int((conv == cv).sum()))
+        ctx.count(f"geographic.{name.split('_pm_')[0]}.inside", int(inside.sum()))
+        ctx.count(f"geographic.{name.split('_pm_')[0]}.outside", int((~inside).sum()))
+
+
 def run(ctx):
     run_quick_linesample(ctx)
     for name, area, exact in _areas(ctx):
         run_area(ctx, name, area, exact)
         ctx.count("areas")
+    run_ewa_sliced(ctx)
+    run_geographic_wrapped(ctx)
